@@ -302,6 +302,14 @@ func (c *Context) HandleEnvelop(envelop vivid.Envelop) {
 	// - 系统消息在 killing 阶段仍需要处理（例如子 Actor 的 OnKilled 事件），否则终止流程无法闭环
 	currentState := atomic.LoadInt32(&c.state)
 	killingOrKilled := (currentState == killed) || (!envelop.System() && currentState != running) // 是否处于停止中或死亡状态
+	if c.parent == nil {
+		// 根 Actor 的邮箱同时是“找不到目标邮箱”时的兜底邮箱：收件人并非根 Actor 的消息属于无法投递的消息，
+		// 必须进入死信，而不能被当作发给根 Actor 自身的消息处理（否则普通消息会被静默吞掉，
+		// 而对已终止 Actor 的 Kill/Watch 等系统消息会作用在根 Actor 上，例如终止整个系统）。
+		if receiver, ok := envelop.Receiver().(*Ref); ok && receiver != nil && !receiver.Equals(c.ref) {
+			killingOrKilled = true
+		}
+	}
 	if killingOrKilled && !c.zombie {                                                             // 是否处于僵尸状态
 		if c.parent == nil && currentState == killed {
 			// 根 Actor 已终止（系统已停止）：无处投递死信，直接丢弃，否则死信会被无限次重新包装并投回自身
